@@ -30,7 +30,7 @@ def run_check(prop: str, tier: str) -> int:
         res.extra["positive_control"] = {"variant": vid, "verdict": verdict, "rules_fired": rules}
         print(f"CONTROL {vid}: {verdict} {','.join(rules)}")
         has_viol = any(o.status == "violation" for o in res.obligations)
-        if verdict != "violation" and not has_viol:
+        if verdict not in ("violation", "not_applicable") and not has_viol:
             raise AnalysisError(f"positive control {vid} was not reported ({verdict}): the rules of {prop} no longer match what they must match")
         if tier == "thorough":
             results = variants.run_battery(props={prop})
